@@ -128,8 +128,7 @@ func hostByHashing(pool HostPool, s string) *UpstreamHost {
 	poolLen := uint32(len(pool))
 	index := hash(s) % poolLen
 	for i := uint32(0); i < poolLen; i++ {
-		index += i
-		host := pool[index%poolLen]
+		host := pool[(index+i)%poolLen]
 		if host.Available() {
 			return host
 		}
